@@ -346,7 +346,18 @@ func GenTypes(t *rapid.T, o *Opts) *Spec {
 			if rapid.Bool().Draw(t, "subSibling") {
 				parent = Module
 			}
-			sp := &Pkg{Name: sn, Path: parent + "/" + sn, Files: []*File{{Name: sn + ".go"}}}
+			dir := sn
+			switch rapid.IntRange(0, 7).Draw(t, "subDirForm") {
+			case 0, 1:
+				// a versioned directory: package geo in .../geo/v2
+				dir = sn + "/v2"
+				o.class("pkg:versioned_directory")
+			case 2:
+				// the directory is not named after the package
+				dir = "go-" + sn
+				o.class("pkg:directory_differs_from_name")
+			}
+			sp := &Pkg{Name: sn, Path: parent + "/" + dir, Files: []*File{{Name: sn + ".go"}}}
 			// insert after root so that later subs can be imported by earlier ones? keep simple: subs do not import each other
 			g.spec.Pkgs = append(g.spec.Pkgs, sp)
 			g.fillPackage(sp, sp.Files[0], sp.Files[0], rapid.IntRange(1, 4).Draw(t, "nSubDecls"), false)
